@@ -219,3 +219,4 @@ def run(fb, rep, tier, cfg):
     r12d(fb, rep)
     from . import r12f
     r12f.run(fb, rep)
+    r12f.r12g(fb, rep)
